@@ -18,9 +18,12 @@ TIERS = {
     "thorough": {"runs": 5000000, "budget_s": 1500, "chunk": 2000},
 }
 RULE = ("one evaluation = one seeded history (3-30 operations, swarm-selected sub-alphabet) over "
-        "Vector.from_shape/from_data (1-3 fixed dims), cell get/set, slice and fancy get/set "
-        "(lists, steps, partial index tuples, values from lists or another Vector), field "
-        "arithmetic, flatten/set_flattened, add/remove fields, copy, metadata writes, a second "
+        "Vector.from_shape/from_data (1-3 fixed dims of 1-3, occasionally 8-100; 1-3 fields, "
+        "occasionally 5-17; float64 and int64 cells of 0-3 rows, occasionally 50-1000), cell "
+        "get/set, slice and fancy get/set (lists, steps, partial index tuples, negative and "
+        "NumPy-integer positions, values from lists or another Vector), field arithmetic, "
+        "flatten/set_flattened and field assignment from arrays, lists and field views (of another "
+        "field, of a copy), add/remove fields, copy, metadata writes, a second "
         "independently created vector, and rejected operations; a reference model (dict of cells) "
         "is stepped in lock-step and EVERY public read (all cells, flatten, per-field flatten, "
         "fields, units, shape, num_fields) is compared after every operation. "
